@@ -762,7 +762,7 @@ VARIANTS = [
      "                raise TimeoutError(f'GATT timeout for {indication.name}') from error\n            self.pending_confirmations[bearer] = None\n", 'fire', 'C10.indication-slot'),
     ('request list loses execute write', 'bumble/att.py', "    Opcode.ATT_PREPARE_WRITE_REQUEST,\n    Opcode.ATT_EXECUTE_WRITE_REQUEST,\n]", "    Opcode.ATT_PREPARE_WRITE_REQUEST,\n]", 'fire', 'C10.classify'),
     ('benign: log text', 'bumble/gatt_server.py', "                logger.debug(f'normal exception returned by handler: {error}')\n", "                logger.debug(f'ATT error returned by handler: {error}')\n", 'silent', ''),
-    ('server adopts the client value unclamped', 'bumble/gatt_server.py', "            mtu = min(self.max_mtu, request.client_rx_mtu)\n\n            bearer.on_att_mtu_update(mtu)", "            bearer.on_att_mtu_update(request.client_rx_mtu)", 'fire', 'C10.mtu-agreement'),
-    ('benign: min() inlined with swapped arguments', 'bumble/gatt_server.py', "            mtu = min(self.max_mtu, request.client_rx_mtu)\n\n            bearer.on_att_mtu_update(mtu)", "            bearer.on_att_mtu_update(min(request.client_rx_mtu, self.max_mtu))", 'silent', ''),
+    ('server adopts the client value unclamped', 'bumble/gatt_server.py', '            mtu = min(self.max_mtu, request.client_rx_mtu)\n\n            try:\n                bearer.on_att_mtu_update(mtu)', '            try:\n                bearer.on_att_mtu_update(request.client_rx_mtu)', 'fire', 'C10.mtu-agreement'),
+    ('benign: min() inlined with swapped arguments', 'bumble/gatt_server.py', '            mtu = min(self.max_mtu, request.client_rx_mtu)\n\n            try:\n                bearer.on_att_mtu_update(mtu)', '            try:\n                bearer.on_att_mtu_update(min(request.client_rx_mtu, self.max_mtu))', 'silent', ''),
     ('client ignores the server value', 'bumble/gatt_client.py', "        self.mtu = min(mtu, response.server_rx_mtu)", "        self.mtu = mtu", 'fire', 'C10.mtu-agreement'),
 ]
